@@ -1,3 +1,5 @@
 import Smpl.Props.C07
+import Smpl.Props.C08
+import Smpl.Props.C11
 import Smpl.Props.C18
 import Smpl.Props.C19
